@@ -1626,6 +1626,15 @@ func (b *Builder) Finish() {
 		b.SC.Doc = append(b.SC.Doc, "arg:context:regex ^ctx")
 	}
 	b.SC.Doc = append(b.SC.Doc, b.spellExtends()...)
+	if b.chance(15, "raw-output") {
+		// user-supplied code and comments that are copied into the output
+		b.label("output:raw")
+		fn := fmt.Sprintf("RawHelper%d", b.id())
+		b.SC.Doc = append(b.SC.Doc, "output:raw func "+fn+"() string {", "output:raw \treturn \"raw\"", "output:raw }")
+		if b.O.Format == "" {
+			b.SC.Doc = append(b.SC.Doc, "struct:comment converts things", "struct:comment // second line")
+		}
+	}
 	for i, m := range b.Conv.Methods {
 		sm := b.SC.Methods[i]
 		if m.Settings.MatchIgnoreCase {
